@@ -226,12 +226,12 @@ structure Disk where
 def makeBackup (keep : Nat) (d : Disk) : Disk :=
   { data := false, snap := false, backups := if keep ≤ d.backups then d.backups else d.backups + 1 }
 
-/-- `CleanupRaft(cfg)`. No snapshot: the folder is removed outright. `slash`: `data_folder` was configured with a
-    trailing slash — `filepath.Dir`/`filepath.Base` then name a folder INSIDE the data folder, `makeBackup` finds
-    "nothing to backup" and returns nil: nothing is moved (and `CleanupRaft` returns nil whatever `makeBackup` said). -/
-def cleanupRaft (keep : Nat) (slash : Bool) (d : Disk) : Disk :=
+/-- `CleanupRaft(cfg)`. No snapshot: the folder is removed outright (`os.RemoveAll`), else it is rotated away.
+    `slash`: `data_folder` was configured with a trailing slash — since fix b8a019e `newDataBackupHelper` cleans the
+    path first, so it makes no difference (before, `filepath.Dir`/`Base` named a folder inside the data folder and
+    nothing was moved); the parameter stays as a regression dimension of the scripts. -/
+def cleanupRaft (keep : Nat) (_slash : Bool) (d : Disk) : Disk :=
   if !d.snap then { d with data := false }
-  else if slash then d
   else makeBackup keep d
 
 /-- what `Clean` may leave behind for a peer with `prev` backups, with and without a snapshot in its folder:
@@ -469,12 +469,12 @@ structure Case where
   obs : Obs
 
 /-- what the model allows the members to report once everybody has caught up -/
-def obsOk (e : Env) (s : MState) (o : Obs) : Bool :=
+def obsOk (_e : Env) (s : MState) (o : Obs) : Bool :=
   o.members.all (fun m =>
     !s.member m.id ||
       (m.peers == s.ids && canonMap m.pins == canonMap s.pins && m.nonvoters == cfgNonvoters s.cfg)) &&
   s.running.all (fun i => !cfgHas s.cfg i || o.members.any (fun m => m.id == i)) &&
-  s.departed.all (fun j => o.gone.any (fun g => g.1 == j && g.2.1 && (g.2.2 || e.slash)))
+  s.departed.all (fun j => o.gone.any (fun g => g.1 == j && g.2.1 && g.2.2))
 
 def allowed (k : Case) : Bool :=
   match replay ⟨k.keep, k.slash⟩ (initState k.tier k.repin k.init) k.ops with
